@@ -251,9 +251,35 @@ def run(ctx):
 
 
 def replay(ctx, path):
+    """re-execute the recorded helper call / field access on /repo's current tree (the generators are re-run with the
+    recorded seed and tier until the same (helper, width, arguments) comes up) and have TLC judge the fresh result"""
     import json
-    case = json.load(open(path))['case']
-    e = case['event']
-    v = tlc.validate('Trace_BV' if 'cls' not in case else 'Trace_Fields', [e])
-    print(json.dumps({'event': e, 'verdict': v}, indent=1))
-    return 1 if v[0]['v'] else 0
+    from ..core import out
+    rec = json.load(open(path))
+    case = rec['case']
+    old = case['event']
+    rnd = random.Random(rec.get('seed', ctx.seed))
+    q = rec.get('tier', 'quick') == 'quick'
+    fresh = None
+    if 'cls' in case:
+        from . import c17_fields
+        for e in c17_fields.gen(ctx, rnd):
+            if e[1:6] == old[1:6]:
+                fresh, mod = e[:8], 'Trace_Fields'
+                break
+    else:
+        amounts = (list(range(0, 20)) + [31, 32, 33, 63, 64, 65, 127, 128, 255]) if q else list(range(256))
+        gens = itertools.chain(gen_small(ctx, 6 if q else 8, amounts), gen_32(ctx, rnd, 8 if q else 64, amounts if q else list(range(256))))
+        for e in events(ctx, gens):
+            if e[1:4] == old[1:4]:
+                fresh, mod = e, 'Trace_BV'
+                break
+    if fresh is None:
+        raise tlc.MachineryError('the recorded case %s was not regenerated' % old[1:4])
+    v = tlc.validate(mod, [fresh])
+    out(json.dumps({'recorded': old, 'now': fresh, 'verdict': v}, indent=1))
+    still = [c for c in v[0]['v'] if c in rec['clauses'] or rec['clauses'] == ['hosterror']]
+    if still or (len(fresh) > 8 and rec['clauses'] == ['hosterror']):
+        out('VIOLATION property=C17 replay=%s' % path)
+        return 1
+    return 0
